@@ -76,6 +76,9 @@ def run(ctx):
     script = ctx.work / "ramp.ops"
     script.write_text("\n".join(lines) + "\n")
     impl_phase(ctx, "ramp", exe, ["replay", script], ["".join(map(str, big)), 0, 1], "TraceHeap", pdef(big), consts(big), props, levels=(2,))
+    # 2^16 and beyond: slot navigation by the bits of the size has its next boundaries there
+    from . import p_big
+    p_big.big_phase(ctx, ["heap:70000"] if ctx.quick else ["heap:70000", "heap:140000"])
     ctx.assumptions += [
         "TLC and the TLA+ text of the contract in HeapOps.tla (HeapOK, TopContract, PopContract) are trusted",
         "the driver reads root/parent/left/right/size from the real structs",
